@@ -270,6 +270,31 @@ func plusOne(z tss.Scalar) tss.Scalar {
 	return tss.Scalar(b[:])
 }
 
+// wrongScalar is one of the algebraically meaningful wrong values for a share's scalar z (k = the member's private
+// nonce d + rho*e, so that z = k + c*lambda*x): 0: z+1; 1: z-2k, the share for the NEGATED nonce (z'G - c*lambda*Y = -R:
+// right x-coordinate, wrong y); 2: -z; 3: z-1.
+func wrongScalar(z, k tss.Scalar, variant int) tss.Scalar {
+	var x, y secp256k1.ModNScalar
+	x.SetByteSlice(z)
+	switch variant % 4 {
+	case 0:
+		y.SetInt(1)
+		x.Add(&y)
+	case 1:
+		y.SetByteSlice(k)
+		y.Add(&y).Negate()
+		x.Add(&y)
+	case 2:
+		x.Negate()
+	default:
+		y.SetInt(1)
+		y.Negate()
+		x.Add(&y)
+	}
+	b := x.Bytes()
+	return tss.Scalar(b[:])
+}
+
 // dummySig is a well-formed signature that belongs to nothing.
 func dummySig(seed string) tss.Signature {
 	return joinSig(tsskit.ScalarFromSeed(seed+"|R").Point(), tsskit.ScalarFromSeed(seed+"|z"))
@@ -322,12 +347,28 @@ func (s *session) build(step tf.M) (sender world.Account, snd int, mid int, sig 
 		if !needHon() {
 			return sender, 0, 0, nil, kind, false
 		}
-		sig = joinSig(hon.R(), plusOne(hon.S()))
+		// which wrong scalar: named by the script ("v") or a function of the state (sid, attempt, member)
+		variant := tf.Int(step, "v", -1)
+		if variant < 0 {
+			variant = int(s.sid) + int(sg.CurrentAttempt) + m
+		}
+		priv, err := tss.ComputeOwnPrivNonce(de.PrivD, de.PrivE, am.BindingFactor)
+		if err != nil {
+			variant = 0
+		}
+		sig = joinSig(hon.R(), wrongScalar(hon.S(), priv, variant))
 	case "nonce":
 		if !needHon() {
 			return sender, 0, 0, nil, kind, false
 		}
-		sig = joinSig(tsskit.ScalarFromSeed(fmt.Sprintf("rnd-%d-%d", s.d.Traces, m)).Point(), hon.S())
+		if v := tf.Int(step, "v", 0); v%2 == 1 && len(hon.R()) == 33 {
+			// the negated nonce point: same x-coordinate, other y (compressed prefix 02 <-> 03)
+			neg := append(tss.Point{}, hon.R()...)
+			neg[0] ^= 1
+			sig = joinSig(neg, hon.S())
+		} else {
+			sig = joinSig(tsskit.ScalarFromSeed(fmt.Sprintf("rnd-%d-%d", s.d.Traces, m)).Point(), hon.S())
+		}
 	case "nonceOther":
 		other, found := ams.FindAssignedMember(tss.MemberID(x))
 		if !needHon() || !found || x == m {
